@@ -102,7 +102,11 @@ impl<'a> From<&'a InvalidSignal<'a>> for Report<'a> {
 fn to_name_and_number<'a, S: Signals>(system: &S, spec: &'a str) -> Option<(Cow<'a, str>, Number)> {
     // TODO Skip any SIG prefix when specified by name
     // TODO Case-insensitive comparison when specified by name
-    if let Ok(number) = spec.parse::<RawNumber>() {
+    // A number is an unsigned decimal integer, but `str::parse` would accept a
+    // leading sign.
+    if spec.starts_with(|c: char| c.is_ascii_digit())
+        && let Ok(number) = spec.parse::<RawNumber>()
+    {
         // Specified by number
         ExitStatus(number).to_signal(system, /* exact = */ false)
     } else {
